@@ -5,6 +5,7 @@ from ..summary import Item, items, is_ok, bv, name_eq
 from ..values import SymStr
 
 ID = 'C04'
+ENGINE_B = {'template': 't_vft', 'kinds': ['dispatch_', 'layout_'], 'max_quick': 6, 'max_thorough': 32}
 FN = ['g0', 'g1', 'g2', 'g3']
 EXPLANATION = ('Template t_vft (type T with a vftable block of m functions, each with an optional symbolic #[index], and an optional '
                'symbolic vftable #[size]) is executed symbolically through convert_grammar_functions_to_semantic_functions, '
@@ -38,7 +39,7 @@ def slices(tier, rng):
     mmax = 2 if tier == 'quick' else 3
     for ps in (4, 8):
         for m in range(1, mmax + 1):
-            if tier == 'quick' and ps == 8: continue
+            if tier == 'quick' and ps == 8 and m > 1: continue
             out.append(Slice('m%d-ps%d' % (m, ps), 't_vft', 4 + 10 * m, lambda a, m=m, ps=ps: assume(a, m, ps),
                              opts={'must_reach': ['ok']}, ctx={'m': m}))
     return out
